@@ -106,6 +106,10 @@ def streams(tier, rng, P, only=None, cases=None):
                 # the same text with Windows line ends: a line is still counted once
                 clean = clean.replace("\n", "\r\n"); dirty = dirty.replace("\n", "\r\n")
             cs.append(dict(req="compile2 %s %s" % (hx(dirty), hx(clean)), src=dirty, show=dirty[:300], exp=exp, key="e%d" % i))
+        # a comment that spans lines inside an expression, in front of an operator that binds looser than the one before it
+        for j, (d, c_, exp) in enumerate([("Tempo=2*30 /* a\nb */ +1 z c", "Tempo=2*30 /* a\nb */ +1 c", [(1, "z")]), ("INT A=2*3 /* a\n\nb */ - 1; ZZZ d", "INT A=2*3 /* a\n\nb */ - 1; d", [(2, "ZZZ")]),
+                                          ("y7,1+2*3 /* a\nb */ +4; z", "y7,1+2*3 /* a\nb */ +4;", [(1, "z")]), ("INT B=(1+2*3 /* a\nb */ >2); z c", "INT B=(1+2*3 /* a\nb */ >2); c", [(1, "z")])]):
+            cs.append(dict(req="compile2 %s %s" % (hx(d), hx(c_)), src=d, show=repr(d), exp=exp, key="cmt%d" % j))
         for j, (d, c_, exp) in enumerate([("c !d e", "c d e", [(0, "!")]), ("\n\nc\n!", "\n\nc\n", [(3, "!")]), ("c\n\n\n!", "c\n\n\n", [(3, "!")]), ("c\n\n\nZZZ d", "c\n\n\n d", [(3, "ZZZ")])]):
             cs.append(dict(req="compile2 %s %s" % (hx(d), hx(c_)), src=d, show=repr(d), exp=exp, key="fixed%d" % j))
         return cs
